@@ -120,6 +120,11 @@ func genDocKey(t *rapid.T, id string, consistent bool) map[string]interface{} {
 
 var goodURIs = []string{"https://example.com/a", "http://hub.example.com/.identity/did:example:0123456789abcdef/", "did:example:123",
 	"https://a.b/c?d=e#f", "/relative/path", "urn:uuid:6ba7b810-9dad-11d1-80b4-00c04fd430c8", "HTTP://Upper.example", "https://example.com/%7Euser"}
+// akaURIs: also-known-as URIs, including spellings that are not fixed points of URL normalisation (the composer treats
+// them as plain strings)
+var akaURIs = []string{"HTTP://Upper.example", "https://example.com/zo\u00eb", "https://example.com/profile#", "https://example.com/a", "did:example:123",
+	"http://hub.example.com/.identity/did:example:0123456789abcdef/", "https://a.b/c?d=e#f", "/relative/path", "urn:uuid:6ba7b810-9dad-11d1-80b4-00c04fd430c8", "https://example.com/a b"}
+
 var badEndpointURIs = []string{"", "::bad", "example.com", "http://[::1", "%zz", "rel/path", "http://a b.com/"}
 var badAkaURIs = []string{"::bad", "http://[::1", "%zz", "http://a\x7fb", ":"}
 
@@ -190,7 +195,7 @@ func genURIList(t *rapid.T, min, max int) []interface{} {
 	seen := map[string]bool{}
 	var out []interface{}
 	for i := 0; i < n; i++ {
-		u := rapid.SampledFrom(goodURIs[:6]).Draw(t, "aka")
+		u := rapid.SampledFrom(akaURIs).Draw(t, "aka")
 		if !seen[u] {
 			seen[u] = true
 			out = append(out, u)
